@@ -20,7 +20,9 @@ func (cw *CodeWriter) WriteLeadingComments(comments []string) {
 			}
 		} else {
 			cw.writeNewline()
-			cw.writeIndent()
+			if isComment {
+				cw.writeIndent() // blank lines are not indented
+			}
 		}
 		if isComment {
 			cw.Builder.WriteString("//")
